@@ -213,7 +213,7 @@ class Hexital:
         """Takes Indicator name and removes all readings for said indicator.
         Indicator name must be exact"""
         for indicator_name, indicator in self._indicators.items():
-            if name is None or (name and name in indicator_name):
+            if name is None or name == indicator_name:
                 indicator.purge()
 
     def calculate(self, name: Optional[str] = None):
